@@ -4,7 +4,7 @@ From CKC Require Import Base.Prelude Base.Reflect Base.SortN Spec.Layout Spec.Po
 From CKC Require Import Gen.Enums Gen.HandRankMaps.
 From CKC Require Import Model.Card Model.Hands Model.Five Model.HandRank.
 From CKC Require Import Proofs.SortFacts Proofs.FiveFacts Proofs.PokerFacts Proofs.RankedFacts
-  Proofs.ShapeFacts Proofs.C01.
+  Proofs.ShapeFacts Proofs.HandFacts.
 Open Scope N_scope.
 
 (* ============================================================================================ *)
@@ -370,38 +370,3 @@ Proof.
   exists h. rewrite <- E. exact (conj Ha (conj eq_refl HD)).
 Qed.
 
-(* ---- C06_cards ------------------------------------------------------------------------------- *)
-Lemma cards_ok chk ws :
-  Hand5 ws ->
-  let h := shape_of ws in
-  let v := ordinal h in
-  rmap hr_from (hand_rank_value chk ws) = Ok (hr_from v) /\
-  rmap hr_from (hand_rank_value_validated chk ws) = Ok (hr_from v) /\
-  hr_value (hr_from v) = v /\
-  hr_name (hr_from v) = name_variant_spec h /\
-  name_string (hr_name (hr_from v)) = category_name h /\
-  class_string (hr_class (hr_from v)) = class_name_spec h /\
-  is_invalid (hr_from v) = false /\ is_a_valid_hand_rank (hr_from v) = true.
-Proof.
-  intros H h v. pose proof (value_ok chk ws H) as HV. cbv zeta in HV. fold h in HV. fold v in HV.
-  destruct HV as (E1 & _ & _ & E4 & _ & HR).
-  destruct H as (HL & HRc & HN). pose proof (shape_valid ws HL HRc HN) as HS.
-  unfold shape_of in *. set (rs := map rank_of_word ws) in *.
-  set (fl := all_same (map suit_of_word ws)) in *.
-  pose proof (canon_in_all_shapes rs fl HS) as Hin.
-  pose proof (sort_desc_perm rs) as HP.
-  destruct (describes_class _ Hin) as [_ HD].
-  assert (EO : ordinal (sort_desc rs, fl) = v).
-  { subst v h. apply ordinal_score, score_perm, HP. }
-  rewrite EO in HD. destruct HD as (D1 & D2 & D3).
-  rewrite E1, E4. cbn [rmap bind hr_from hr_value hr_name hr_class].
-  split; [reflexivity|]. split; [reflexivity|]. split; [reflexivity|].
-  split; [|split; [|split; [|split]]].
-  - rewrite D1. unfold name_variant_spec. subst h.
-    rewrite (category_name_perm _ _ fl HP). reflexivity.
-  - rewrite D2. subst h. apply category_name_perm, HP.
-  - rewrite D3. subst h. apply class_name_spec_perm, HP.
-  - unfold is_invalid. cbn [hr_name]. apply N.eqb_neq. intros EI.
-    apply name_invalid in EI; lia.
-  - unfold is_a_valid_hand_rank. apply hr_eqb_eq. reflexivity.
-Qed.
